@@ -641,6 +641,16 @@ func normLit(cond ssa.Value, pos bool) (ssa.Value, bool) {
 			pos = !pos
 			continue
 		}
+		// a condition that a refactoring named: an unexported predicate of the receiver made of field loads and
+		// comparisons stands for its body
+		if call, ok := cond.(*ssa.Call); ok {
+			if r := pureGetterResult(call); r != nil {
+				if _, isCmp := r.(*ssa.BinOp); isCmp {
+					cond = r
+					continue
+				}
+			}
+		}
 		return cond, pos
 	}
 }
@@ -1065,4 +1075,29 @@ func returnsLoadOf(fn *ssa.Function, f *types.Var) (ssa.Value, bool) {
 		v = stripConv(r.Results[0])
 	}
 	return v, v != nil
+}
+
+// allCallersSatisfy: fn is an unexported function with at least one in-scope call site and, for every call site, the
+// enclosing top-level function satisfies pred or is itself such a helper (up to depth levels).
+func allCallersSatisfy(p *Prog, fn *ssa.Function, depth int, pred func(*ssa.Function) bool) bool {
+	if depth == 0 || fn.Object() == nil || fn.Object().Exported() {
+		return false
+	}
+	sites := p.callers(fn)
+	if len(sites) == 0 {
+		return false
+	}
+	for _, s := range sites {
+		top := s.Parent()
+		for top.Parent() != nil {
+			top = top.Parent()
+		}
+		if top == fn {
+			continue
+		}
+		if !pred(top) && !allCallersSatisfy(p, top, depth-1, pred) {
+			return false
+		}
+	}
+	return true
 }
